@@ -3,44 +3,47 @@ From V Require Import Base.Util Gql.Ast C05.Model C05.Spec C05.Witness C05.Proof
 
 Check (C05_complete : forall doc, spec_valid doc = true -> check_doc doc = []).
 Check (C05_complete_extra_default_accepted : spec_valid Witness.w_extra_default = true /\ check_doc Witness.w_extra_default = []).
-Check (C05_sound : forall doc, check_doc doc = [] -> unique_names doc = true -> ok_app_arg_unique doc = true ->
-                   forall r, rule_ok_impl r doc = true).
-Check (C05_exact : forall doc, wf_doc doc = true ->
-  (check_doc doc = [] <-> forall r, rule_ok_impl r doc = true)).
+Check (C05_sound : forall doc, check_doc doc = [] -> unique_names doc = true -> forall r, rule_ok r doc = true).
+Check (C05_exact : forall doc, wf_doc doc = true -> (check_doc doc = [] <-> forall r, rule_ok r doc = true)).
 Check (C05_sound_local : forall doc, check_doc doc = [] ->
   ok_reserved doc = true /\ ok_dup_field doc = true /\ ok_dup_arg doc = true /\ ok_dup_input_field doc = true /\
   ok_dup_enum_value doc = true /\ ok_dup_union_member doc = true /\ ok_input_in_output doc = true /\
   ok_output_in_input doc = true /\ ok_directive_unknown doc = true /\ ok_directive_misplaced doc = true /\
-  ok_directive_repeated doc = true).
+  ok_directive_repeated doc = true /\ ok_directive_args doc = true).
 Check (C05_sound_directive_args_int_range_rejected :
   rule_ok RDirectiveArgs Witness.w_int_range = false /\ check_doc Witness.w_int_range <> []).
-Check (C05_sound_directive_recursive_nested_refuted :
-  exists doc, check_doc doc = [] /\ unique_names doc = true /\ ok_app_arg_unique doc = true /\ rule_ok RDirectiveRecursive doc = false).
+Check (C05_sound_directive_recursive_nested_rejected :
+  rule_ok RDirectiveRecursive Witness.w_nested = false /\ check_doc Witness.w_nested <> [] /\
+  rule_ok RDirectiveRecursive Witness.w_input_cycle_rec = false /\ check_doc Witness.w_input_cycle_rec <> [] /\
+  spec_valid Witness.w_input_cycle = true /\ check_doc Witness.w_input_cycle = []).
+Check (C05_sound_directive_args_duplicate_rejected :
+  rule_ok RDirectiveArgs Witness.w_dup_arg_ill_typed = false /\ check_doc Witness.w_dup_arg_ill_typed <> []).
 Check (C05_directive_recursion_exact : forall doc d, unique_names doc = true -> In d (directives_of doc) ->
   (check_directive_recursion doc d = [] <-> forall n y, reach doc (S n) d y -> dname y <> dname d)).
 Check (C05_recursion_fuel_enough : forall doc d e,
   In d (directives_of doc) -> In e (check_directive_recursion doc d) -> e_msg e <> EOutOfFuel).
+Check (C05_type_traversal_fuel_enough : forall doc d, next_of_fuel_ok doc d = true).
 Check (C05_is_subtype_covariant_correct : forall doc a b, check_doc doc = [] -> unique_names doc = true ->
   defined doc (base_name a) = true -> defined doc (base_name b) = true ->
   (is_subtype doc a b = Some true <-> valid_impl_field_type doc a b = true)).
 Check (C05_no_implements_cycle : forall doc, check_doc doc = [] -> unique_names doc = true -> implements_acyclic doc).
 Check (C05_resolve_rejects_same_kind_dup : forall doc, same_kind_dup doc = true -> resolve_fails doc = true).
 (* the definitions the statements rest on are the ones the correspondence run evaluates *)
-Check (eq_refl : rule_ok_impl = rule_ok_gen false).
 Check (eq_refl : rule_ok = rule_ok_gen true).
-Check (eq_refl : rule_ok_impl RDirectiveArgs = ok_directive_args).
-Check (eq_refl : rule_ok_impl RDirectiveRecursive = ok_directive_recursive_shallow).
 Check (eq_refl : rule_ok RDirectiveArgs = ok_directive_args).
 Check (eq_refl : rule_ok RDirectiveRecursive = ok_directive_recursive).
+Check (eq_refl : wf_doc = fun doc => unique_names doc && ok_app_args_nonempty doc).
 Print Assumptions C05_complete.
 Print Assumptions C05_complete_extra_default_accepted.
 Print Assumptions C05_sound.
 Print Assumptions C05_exact.
 Print Assumptions C05_sound_local.
 Print Assumptions C05_sound_directive_args_int_range_rejected.
-Print Assumptions C05_sound_directive_recursive_nested_refuted.
+Print Assumptions C05_sound_directive_recursive_nested_rejected.
+Print Assumptions C05_sound_directive_args_duplicate_rejected.
 Print Assumptions C05_directive_recursion_exact.
 Print Assumptions C05_recursion_fuel_enough.
+Print Assumptions C05_type_traversal_fuel_enough.
 Print Assumptions C05_is_subtype_covariant_correct.
 Print Assumptions C05_no_implements_cycle.
 Print Assumptions C05_resolve_rejects_same_kind_dup.
